@@ -27,7 +27,7 @@ ATTR_RE = re.compile(r"has no attribute '(__dialect_\w+_cache__|__mashumaro_(?:t
 # cases
 # ---------------------------------------------------------------------------
 
-def gen_ops(fam, rng, helper, nops):
+def gen_ops(fam, rng, helper, nops, meta=None):
     ops = []
     mix = [i for i, c in enumerate(fam["classes"]) if F.entry_points(fam, i)]
     tries = 0
@@ -40,7 +40,7 @@ def gen_ops(fam, rng, helper, nops):
         kws = []
         if d:
             kws.append(f"dialect={d}")
-        val = F.gen_value_src(fam, i, rng)
+        val, tree = F.gen_value(fam, i, rng)
         pkws = list(kws)
         if c.get("onf") and rng.random() < 0.5:
             pkws.append("omit_none=True")
@@ -48,6 +48,8 @@ def gen_ops(fam, rng, helper, nops):
         r = rng.random()
         if r < 0.5:
             ops.append(pack)
+            if meta is not None:
+                meta.append({"cls": i, "fmt": fmt, "pack": True, "dialect": d, "tree": tree, "valid": True})
             continue
         try:
             wire = eval(pack, helper.__dict__)
@@ -56,7 +58,12 @@ def gen_ops(fam, rng, helper, nops):
         if r > 0.93 and isinstance(wire, dict) and wire:
             wire = dict(wire)
             wire.pop(rng.choice(sorted(wire)), None)      # an invalid input: the error path through stubs
+            valid = False
+        else:
+            valid = True
         ops.append(f"{c['name']}.{up}({wire!r}{', ' + ', '.join(kws) if kws else ''})")
+        if meta is not None:
+            meta.append({"cls": i, "fmt": fmt, "pack": False, "dialect": d, "tree": tree, "valid": valid})
     return ops
 
 
@@ -75,11 +82,12 @@ def gen_case(rng, nops=6, max_classes=5):
         helper = F.load(twin_src, "h")
     except BaseException as e:
         return {"fam": fam, "skip": "twin-creation-" + type(e).__name__}
+    meta = []
     try:
-        ops = gen_ops(fam, rng, helper, nops)
+        ops = gen_ops(fam, rng, helper, nops, meta)
     finally:
         F.unload(helper)
-    return {"fam": fam, "mode": mode, "order": order, "lazy": lazy, "src": src, "twin_src": twin_src, "ops": ops}
+    return {"fam": fam, "mode": mode, "order": order, "lazy": lazy, "src": src, "twin_src": twin_src, "ops": ops, "opmeta": meta}
 
 
 def fresh_expected(twin_src, op, aux=None, want_snapshot=None):
@@ -168,6 +176,8 @@ def run_history(case, upto=None, collect=None):
             if got != exp:
                 sig = classify(fam, op, got, exp, gaux, eaux, snap, esnap)
             res.append((k, op, got, exp, sig))
+            if gaux.get("rec"):
+                case.setdefault("rec", {})[k] = gaux["rec"]
             if sig is not None:
                 break
     finally:
@@ -206,8 +216,11 @@ def oracle_histories(ctx: vlib.Ctx, n: int, keep_cases=None):
                         feats.add("specialisation")
         for f in feats:
             ctx.hist("features", f)
-        res = run_history(case)
+        snaps = []
+        res = run_history(case, collect=snaps)
         if keep_cases is not None:
+            case["snaps"] = snaps
+            case["res"] = res
             keep_cases.append(case)
         for k, op, got, exp, sig in res:
             m = re.search(r"\.(to|from)_(\w+)\(", op)
